@@ -747,10 +747,21 @@ def _open_known():
     return set(k for k, e in core.load_known(PROPERTY).items() if e.get("status") == "open")
 
 
+def _explore_in_slices(ctx, strategy, body, total, shrink, slice_size=600):
+    """ctx.explore in slices (own seed offset each), so that after a budget hit the run ends within one
+    slice instead of letting hypothesis generate thousands of cases that are skipped."""
+    done = k = 0
+    while done < total and not ctx.out_of_time():
+        n = min(slice_size, total - done)
+        ctx.explore(strategy, body, n, shrink=shrink, seed_offset=k)
+        done += n
+        k += 1
+
+
 def run(ctx):
     ctx.set_budget(75, 850)
     known = _open_known()
-    ctx.explore(case_st, lambda c: process(ctx, c, known), ctx.scale(800, 8000), shrink=False)
+    _explore_in_slices(ctx, case_st, lambda c: process(ctx, c, known), ctx.scale(600, 8000), shrink=False)
 
 
 def replay(ctx, case):
